@@ -372,8 +372,9 @@ def concurrent(
     if parent_prefix is None:
         parent_prefix = _NopContextManager()
 
-    if attributes is None:
-        attributes = {}
+    # work on a copy: the dict belongs to the caller and may be passed again
+    # (by the next build of the same design or to another context)
+    attributes = {} if attributes is None else dict(attributes)
 
     if comment is not None:
         assert "comment" not in attributes, "comment attribute already set"
@@ -444,8 +445,9 @@ def _sequential_impl(
 
     is_coro = inspect.iscoroutinefunction(trigger)
 
-    if attributes is None:
-        attributes = {}
+    # work on a copy: the dict belongs to the caller and may be passed again
+    # (by the next build of the same design or to another context)
+    attributes = {} if attributes is None else dict(attributes)
 
     if comment is not None:
         assert "comment" not in attributes, "comment attribute already set"
